@@ -57,6 +57,31 @@ def handle (j : Json) : Except String Json := do
     let c : LinCfg := { bits := b, integer := i, symmetric := sy, keepNeg := kn, alpha := al }
     let qf ← getRat j "qf"
     pure <| Json.mkObj [("out", dOut (xs.map fun x => qlinearD t c qf (D.var x)))]
+  | "bits_auto" =>
+    -- data-dependent scale: `ss` = the implementation's `self.scale` (= scale * m) per element, an
+    -- oracle input; the model's scale search returns it with a NON-zero tangent (K.max is
+    -- differentiable) — the result must not depend on that tangent
+    let b ← getInt cfg "bits"
+    let i ← getInt cfg "integer"
+    let kn ← getBool cfg "keep_negative"
+    let c : AutoCfg := { bits := b, integer := i, keepNeg := kn }
+    let ste ← getBool j "use_ste"
+    let qf ← getRat j "qf"
+    let ss ← getRatList j "ss"
+    let m : Rat := (twoPow c.ub : Rat)
+    pure <| Json.mkObj [("out", dOut ((zip2 xs ss).map fun (x, sM) =>
+      qbitsAutoD c ste qf (fun xn => ⟨sM / m, xn.tan * 3⟩) (D.var x)))]
+  | "linear_s" =>
+    -- quantized_linear with the implementation's (data-dependent) quantization scale per element
+    let b ← getInt cfg "bits"
+    let i ← getInt cfg "integer"
+    let sy ← getBool cfg "symmetric"
+    let kn ← getBool cfg "keep_negative"
+    let c : LinCfg := { bits := b, integer := i, symmetric := sy, keepNeg := kn, alpha := none }
+    let qf ← getRat j "qf"
+    let qss ← getRatList j "qss"
+    pure <| Json.mkObj [("out", dOut ((zip2 xs qss).map fun (x, qs) =>
+      qlinearSD t c ⟨qs, 5⟩ qf (D.var x)))]
   | "tanh_hard" =>
     let b ← getInt cfg "bits"
     let sy ← getBool cfg "symmetric"
